@@ -595,8 +595,13 @@ func (c *Ctx) WriteEvidence() error {
 		"solver answers (z3 5.1.0, z3 4.8.12, cvc5 1.0); any error, unknown or timeout makes the run inconclusive (exit 3), never a success")
 	ev := Evidence{PropertyID: c.ID, Tier: c.Tier, Seed: c.Seed, Level: "model_checking", Coverage: cov, Assumptions: c.Assumptions, WallS: round3(time.Since(c.T0).Seconds()), Violations: len(c.Violations)}
 	b, _ := json.MarshalIndent(ev, "", " ")
-	os.MkdirAll(filepath.Join(VerifRoot, "evidence"), 0o755)
-	return os.WriteFile(filepath.Join(VerifRoot, "evidence", c.ID+".json"), b, 0o644)
+	dir := filepath.Join(VerifRoot, "evidence")
+	if r := os.Getenv("GV_REPO"); r != "" {
+		// a run against a scratch tree never overwrites the evidence of the registered checks
+		dir = filepath.Join(r, ".gv-evidence")
+	}
+	os.MkdirAll(dir, 0o755)
+	return os.WriteFile(filepath.Join(dir, c.ID+".json"), b, 0o644)
 }
 
 func max64(a, b int64) int64 {
